@@ -15,7 +15,7 @@ from __future__ import annotations
 import json
 
 from .. import graphs as G
-from ..core import TLA, MachineryError
+from ..core import MachineryError
 from ..par import pmap
 
 META = {
@@ -24,11 +24,15 @@ META = {
     "technique": "TLA+ contract of dask.order.order (Pattern B); TLC enumerates all small DAGs x node kinds x external "
                  "references and all small cyclic digraphs; each case is run through the real order() and every call record "
                  "is validated by TLC against the contract; random larger and collection-derived graphs likewise",
-    "level_text": "Small-scope exhaustive: every DAG with <= 5 (quick) / <= 6 (thorough) nodes in canonical numbering under every "
-                  "task/plain kind assignment, every such graph with <= 4 (5) nodes and 1-2 external references, every cyclic "
-                  "digraph with <= 4 nodes; built as legacy, Task-object and mixed graphs with scrambled names; TLC decides each "
-                  "recorded call of dask.order.order against the contract (domain, distinctness, dependencies first, cycles "
-                  "rejected). Larger random / collection graphs (<= ~80 nodes) are sampled.",
+    "level_text": "Small-scope exhaustive: every DAG with <= 5 nodes in canonical numbering under every task/plain kind assignment, "
+                  "every such graph with <= 4 nodes and 1-2 references to external keys, every cyclic digraph with <= 3 nodes under "
+                  "every kind assignment, every second cyclic 4-node digraph all-task / all-plain (thorough tier; the quick "
+                  "tier is exhaustive up to 4 / 3 / 3 nodes and takes every second 5-node DAG and 4-node external-reference graph and "
+                  "1/32 of the cyclic 4-node digraphs); thorough adds stride samples of the 6-node DAGs (1/32) and of the 5-node "
+                  "graphs with external references (1/8). Cases are built as legacy, Task-object and mixed graphs with scrambled names and "
+                  "insertion order; TLC decides each recorded call of dask.order.order against the contract (domain, distinctness, "
+                  "dependencies first, cycles rejected). Hand-written witnesses, seeded random graphs (<= ~45 nodes) and graphs of "
+                  "real array/bag/delayed/dataframe collections are recorded and decided the same way.",
     "level_note": "Trusted: TLC, the graph builder of harness/graphs.py (checked against a Python reference of IsDag on every "
                   "case), GraphNode.dependencies for graphs taken from collections. Bounded graph sizes; above the bound "
                   "sampling only. A CPU-time guard (0.2 s, confirmed with 0.6 s) turns non-termination into an observation.",
@@ -207,11 +211,16 @@ def plans_for(ctx):
     small = ([job("dag", n) for n in range(1, 6)] + [job("ext", n, maxext=2) for n in range(1, 5)]
              + [job("cyc", n) for n in range(1, 4)])
     if ctx.quick:
-        return [small + [job("cyc", 4, allkinds=False, stride=32, offset=off(32))]]
+        # exhaustive up to 4 nodes; of the 5-node DAGs / 4-node external-reference graphs every second code
+        # (the thorough tier takes all of them)
+        return [[job("dag", n) for n in range(1, 5)] + [job("dag", 5, stride=2, offset=off(2))]
+                + [job("ext", n, maxext=2) for n in range(1, 4)] + [job("ext", 4, maxext=2, stride=2, offset=off(2))]
+                + [job("cyc", n) for n in range(1, 4)]
+                + [job("cyc", 4, allkinds=False, stride=32, offset=off(32))]]
     return [small,
-            [job("dag", 6, stride=16, offset=off(16))],
+            [job("dag", 6, stride=32, offset=off(32))],
             [job("ext", 5, maxext=2, stride=8, offset=off(8))],
-            [job("cyc", 4, allkinds=False)]]
+            [job("cyc", 4, allkinds=False, stride=2, offset=off(2))]]
 
 
 def forms_for(case, rng, all_forms_upto):
@@ -239,7 +248,8 @@ def enumerated(ctx, plan, all_forms_upto=None, unsat_n=None):
 def run_items(ctx, items, prefix):
     import dask.order  # noqa: F401 - import before forking
     G.prepare_fork()
-    out = pmap(_work, items, chunk=256)
+    # a call costs ~0.2 ms: below ~10^5 items a fork pool costs more than it saves (measured)
+    out = pmap(_work, items, chunk=256, procs=None if len(items) > 80000 else 1)
     recs = []
     for (case, _vs), res in zip(items, out):
         if res == "GUARD":
@@ -264,10 +274,6 @@ def random_cases(ctx, count):
         else:
             deps = G.random_dag(rng, rng.randint(6, 30))
         n = len(deps)
-        dependents = {k: 0 for k in range(1, n + 1)}
-        for ds in deps:
-            for d in ds:
-                dependents[d] += 1
         kinds = []
         pplain = rng.choice([0.0, 0.1, 0.3])
         for i in range(n):
@@ -342,7 +348,7 @@ def collection_graphs(ctx):
     d2 = [dask.delayed(G.fn)(d1, i) for i in range(3)]
     add("delayed:fan", dask.delayed(G.fn)(*d2))
     try:
-        from ..frames import dd as get_dd, is_shim_error
+        from ..frames import dd as get_dd
         import pandas as pd
         ddm = get_dd()
         pdf = pd.DataFrame({"a": range(12), "b": [i % 3 for i in range(12)]})
@@ -374,14 +380,17 @@ def collection_records(ctx):
 
 
 # --------------------------------------------------------------------------- entry points
-def process(ctx, items, prefix, slice_=50000):
-    """run the real function on the items and let TLC judge the records, slice by slice (bounded memory)"""
+def process(ctx, items, prefix, slice_=50000, extra=()):
+    """run the real function on the items and let TLC judge the records, slice by slice (bounded
+    memory); `extra` (ready-made records) rides along with the first slice"""
     fams = {}
+    extra = list(extra)
     for lo in range(0, len(items), slice_):
-        recs = run_items(ctx, items[lo:lo + slice_], "%s%d_" % (prefix, lo // slice_))
-        report(ctx, recs, judge(ctx, recs))
+        recs = run_items(ctx, items[lo:lo + slice_], "%s%d_" % (prefix, lo // slice_)) + extra
+        extra = []
+        report(ctx, recs, judge(ctx, recs, batch=160000))
         for r in recs:
-            fams.setdefault(r["fam"], r)
+            fams.setdefault(r.get("fam", "collection"), r)
     for fam, r in sorted(fams.items()):
         if fam in ("dag", "ext", "cyc"):
             ctx.sample({"family": fam, "n": r["n"], "deps": r["deps"], "kinds": r["kinds"], "form": r["variant"]["form"],
@@ -391,19 +400,21 @@ def process(ctx, items, prefix, slice_=50000):
 
 def run(ctx):
     total, plan, fams = 0, [], set()
-    for gi, group in enumerate(plans_for(ctx)):
+    groups = plans_for(ctx)
+    for gi, group in enumerate(groups):
         items, n, _ = enumerated(ctx, group)
         total += n
         plan += group
-        fams |= process(ctx, items, "e%d_" % gi)
+        extra = []
+        if gi == 0:
+            # larger graphs: hand-written witnesses, seeded random graphs, graphs of real collections
+            items = items + fixed_cases(ctx) + random_cases(ctx, ctx.pick(2000, 10000))
+            extra = collection_records(ctx)
+        fams |= process(ctx, items, "e%d_" % gi, extra=extra)
         del items
     if not {"dag", "ext", "cyc"} <= fams:
         raise MachineryError("case enumeration is missing a family: %s" % sorted(fams))
     sampled = any(j["stride"] > 1 for j in plan)
-    # larger graphs
-    process(ctx, fixed_cases(ctx) + random_cases(ctx, ctx.pick(2000, 20000)), "r")
-    recs = collection_records(ctx)
-    report(ctx, recs, judge(ctx, recs))
     ctx.exhaustive = not sampled
     ctx.extra["cases_enumerated_by_tlc"] = total
     ctx.extra["enumeration_plan"] = json.dumps(
@@ -420,8 +431,12 @@ def run(ctx):
 def replay(ctx, obj):
     r = obj["case"]["record"]
     if "variant" not in r:
-        print("collection-derived record: re-run the tier to reproduce (%s)" % r.get("src"))
-        return False
+        # a graph taken from a real collection: rebuild it by its source name
+        recs = [x for x in collection_records(ctx) if x.get("src") == r.get("src")]
+        bad = judge(ctx, recs)
+        print("collection graph %s: observed %s; rejected: %s" % (r.get("src"), [x["res"] for x in recs],
+                                                                   [(classify(x, c), c) for x, c in bad]))
+        return bool(bad)
     rec = run_case({"n": r["n"], "deps": r["deps"], "kinds": r["kinds"]}, r["variant"])
     rec["id"] = "replay"
     bad = judge(ctx, [rec])
